@@ -1,0 +1,39 @@
+//go:build verif
+
+// Contracts for the verification machinery in /verif (govc). Comment-only file: it
+// compiles to nothing with or without the "verif" build tag.
+
+package store
+
+// ---- abstract state of a store object (ghost fields, keyed by the object) ----------
+//
+// reg      : the set of registered node ids
+// cell     : the ledger cell a node's balance lives in (its wallet once linked, else its trial cell)
+// credit   : credit per ledger cell
+// deposit  : deposit per ledger cell
+// total    : sum of credit over all ledger cells (the quantity C01 is about)
+// nonce    : highest nonce accepted per identity
+//
+//@ ghost field reg set[NodeID]
+//@ ghost field cell map[NodeID]string
+//@ ghost field credit map[string]int
+//@ ghost field deposit map[string]int
+//@ ghost field total int
+//@ ghost field nonce map[string]int
+
+//@ pure spendable(s BalanceStore, id NodeID) int = s.credit[s.cell[id]] + s.deposit[s.cell[id]]
+
+//@ interface store.BalanceStore.GetNodeBalance(nodeID) (result, err)
+//@ ensures [unreg] !this.reg[nodeID] ==> err == ErrUnregisteredNode
+//@ ensures [errkind] !typeis(err, balance.LowBalanceError)
+//@ ensures [value] err == nil ==> bigval(result.Credit) == this.credit[this.cell[nodeID]] && bigval(result.Deposit) == this.deposit[this.cell[nodeID]]
+//@ modifies nothing
+
+//@ interface store.BalanceStore.AddNodeBalance(nodeID, credit) (err)
+//@ requires credit != nil
+//@ ensures [unreg] !old(this.reg[nodeID]) ==> err == ErrUnregisteredNode
+//@ ensures [ok]    err == nil ==> this.credit == upd(old(this.credit), this.cell[nodeID], old(this.credit)[this.cell[nodeID]] + bigval(credit))
+//@                                && this.total == old(this.total) + bigval(credit)
+//@ ensures [errkind] !typeis(err, balance.LowBalanceError)
+//@ ensures [fail]  err != nil ==> this.credit == old(this.credit) && this.total == old(this.total)
+//@ modifies this.credit, this.total
